@@ -20,7 +20,7 @@ import z3
 
 from . import rsparse as rp, smt, syn
 from .common import DISCHARGED, FAILED, UNDECIDED, Obligation, Undecided
-from .smt import Val, zceil, zfloor
+from .smt import Val, zabs, zceil, zfloor
 
 R = z3.RealVal
 
@@ -75,6 +75,12 @@ class Structure:
                 if e is not None and e[0] == "for":
                     self.moves.append(e)
                     self.seq.append(("move", e))
+                elif e is not None and e[0] == "if" and any(n[0] == "for" for n in rp.walk(e[2])) and e[3] is None:
+                    # data movement under a condition: the loops are checked under the condition, and skipping them must
+                    # leave the buffer-window invariant intact (nothing was loaded before / nothing is consumed now)
+                    fors = [rp.strip_paren(x[1]) for x in e[2][1] if x[0] == "expr" and rp.strip_paren(x[1])[0] == "for"]
+                    rest = [x for x in e[2][1] if not (x[0] == "expr" and rp.strip_paren(x[1])[0] == "for")]
+                    self.seq.append(("cond-move", e[1], fors, ("if", e[1], ("block", rest, e[2][2]), None, 0)))
                 elif e is not None and e[0] == "macro":
                     continue
                 else:
@@ -195,7 +201,9 @@ class State:
             # a call that is not a ramp: current and target ratio are the same value (same Z3 term, so that
             # identical float expressions over them are identical terms)
             e.vars["self.target_ratio"] = e.vars["self.resample_ratio"]
-        v = lambda n: e.vars["self." + n].t
+        pre = {k_[5:]: val_.t for k_, val_ in e.vars.items() if k_.startswith("self.")}
+        self.pre = pre
+        v = lambda n: pre[n]          # PRE-state value of a field (the env is mutated by symbolic execution)
         self.v = v
         # configuration ghosts
         self.lo = z3.Real("cfg_lo" + tag)          # original / max
@@ -215,7 +223,14 @@ class State:
             self.factor = None
         e.opaque["self.buffer[chan].len()"] = Val(self.buflen, "usize")
         self.maxchunk = v("max_chunk_size") if "max_chunk_size" in fields else v("chunk_size")
-        self.fill = v("current_buffer_fill") if "current_buffer_fill" in fields else v("chunk_size")
+        if "current_buffer_fill" in fields:
+            self.fill = v("current_buffer_fill")
+            self.fill_is_ghost = False
+        else:
+            # no field records how many frames the previous call loaded: a ghost does (for the Fast types it equals
+            # chunk_size, which never changes after construction - C12 config-frame obligation)
+            self.fill = z3.Int("ghost_loaded_by_previous_call" + tag)
+            self.fill_is_ghost = True
 
     # ---- representation invariant (DESIGN.md section 3), split into named clauses
     def wf_cfg(self):
@@ -238,9 +253,20 @@ class State:
         return [v("resample_ratio") >= self.lo * (one - s), v("resample_ratio") <= self.hi * (one + s),
                 v("target_ratio") >= self.lo * (one - s), v("target_ratio") <= self.hi * (one + s)]
 
+    def witness(self):
+        """a concrete configuration that helps Z3 find a model for the vacuity guards"""
+        v = self.v
+        w = [self.lo == 1, self.hi == 1, v("resample_ratio_original") == 1, v("max_relative_ratio") == 1, v("resample_ratio") == 1,
+             v("chunk_size") == 64, self.maxchunk == 64, self.A == 2, self.tp == 1]
+        if self.kind.sinc:
+            w += [self.L == 16, self.factor == 128]
+        return w
+
     def wf_fill(self):
         L = self.L
         c = [self.fill >= 0, self.fill + 2 * L <= self.buflen]
+        if self.fill_is_ghost and not self.kind.sinc:
+            c.append(self.fill == self.v("chunk_size"))
         if self.kind.fixed_in:
             c += [self.fill <= self.maxchunk, self.buflen == self.maxchunk + 2 * L]
         return c
@@ -375,12 +401,24 @@ class VC:
         obs = []
         backend = "vcgen/z3-%s" % z3.get_version_string()
         # vacuity guard: the precondition (wf, invariant, guard, carve-out, facts) must be satisfiable
-        sv = z3.Solver()
-        sv.set("timeout", 15000)
-        for a in base:
-            sv.add(a)
         t1 = time.time()
-        rv = sv.check()
+        rv = z3.unknown
+        for hint in (getattr(self, "witness", None), None):
+            if hint is None and rv == z3.sat:
+                break
+            sv = z3.Solver()
+            sv.set("timeout", 10000)
+            for a in base:
+                sv.add(a)
+            if hint:
+                for h_ in hint:
+                    sv.add(h_)
+            rv = sv.check()
+            if rv == z3.sat:
+                break
+            if hint is not None and rv == z3.unsat:
+                rv = z3.unknown     # the hinted witness does not fit this VC; try without hints
+                continue
         if rv == z3.unsat:
             return [Obligation("%s :: vacuity guard" % self.name, backend, UNDECIDED, time.time() - t1, self.kind, [self.fn], checks=1,
                                detail="the assumptions of this VC are contradictory - nothing would be proved")]
@@ -566,12 +604,28 @@ def process_vcs(read, T, log=None):
     adv_in, adv_out = a_in.t, a_out.t
 
     vc0 = VC("%s.process.setup" % T, fn)
+    vc0.witness = st.witness()
     vc0.assume(pre)
-    for (k_, item) in S.seq:
+    for entry in S.seq:
+        k_, item = entry[0], entry[1]
         if k_ == "stmt":
             env.exec_stmt(item)
-        else:
+        elif k_ == "move":
             move_goals(vc0, env, st, item, kind)
+        else:
+            cond = env.ev(item)
+            n_before = len(vc0.goals)
+            for f_ in entry[2]:
+                move_goals(vc0, env, st, f_, kind)
+            vc0.goals[n_before:] = [(lbl, g_, list(p_) + [cond.t]) for (lbl, g_, p_) in vc0.goals[n_before:]]
+            txt = " ".join(rp.show(f_) for f_ in entry[2]) + " " + " ".join(rp.show(n) for f_ in entry[2] for n in rp.walk(f_) if n[0] == "mcall")
+            if "copy_within" in txt:
+                vc0.goal("C05 when the history shift is skipped (`if %s` false) nothing had been loaded by the previous call" % rp.show(item)[:50],
+                         st.fill_at_entry == 0, [z3.Not(cond.t)])
+            if "copy_from_slice" in txt:
+                vc0.goal("C05 when the chunk load is skipped (`if %s` false) no input frames are consumed by this call" % rp.show(item)[:50],
+                         st.consumed == 0, [z3.Not(cond.t)])
+            env.exec_expr(entry[3])
     vc0.take_side(env)
     fill_now = env.vars["self.current_buffer_fill"].t if "self.current_buffer_fill" in env.vars else v("chunk_size")
     T0_term = env.get("t_ratio").t
@@ -673,6 +727,7 @@ def process_vcs(read, T, log=None):
         bound_cnt = v("chunk_size")
         # ---- base
         vb = VC(an + ".base", fn)
+        vb.witness = st.witness()
         vb.assume(common)
         cnt0 = e0.vars[cnt_name].t if loop[0] == "while" else z3.IntVal(0)
         for i, c in enumerate(inv(IDX0, T0, cnt0, bound_cnt)):
@@ -683,6 +738,7 @@ def process_vcs(read, T, log=None):
         es.vars = dict(e0.vars)
         havoc(es)
         vs = VC(an + ".step", fn)
+        vs.witness = st.witness()
         vs.assume(common, inv(idx_h, tr_h, cnt_h, bound_cnt))
         if kind.sinc:
             # carve-out F11/F12 (DESIGN.md 7): Cubic/Quadratic need oversampling_factor >= 3, Linear >= 2
@@ -724,11 +780,15 @@ def process_vcs(read, T, log=None):
         if kind.fixed_in:
             vs.goal("C04 frame counter stays below the advertised output_frames_next()", cnt_next <= adv_out)
         obs += vs.discharge(es)
-        # ---- exit
+        # ---- exit (the same for every arm: checked once per type)
+        if arm is not S.arms[0]:
+            continue
+        an = "%s.process" % T
         ex = e0.clone()
         ex.vars = dict(e0.vars)
         havoc(ex)
         vx = VC(an + ".exit", fn)
+        vx.witness = st.witness()
         vx.assume(common, inv(idx_h, tr_h, cnt_h, bound_cnt))
         vx.facts = facts
         hints(vx, st, kind, T0, IDX0, idx_h, cnt_h, e0, D if not kind.fixed_in else None, fill_now)
@@ -764,6 +824,14 @@ def hints(vc, st, kind, T0, IDX0, idx_h, cnt_h, e0, D, fill_now, step=False):
                  TRc(END) - IDX0 <= TRc(v("chunk_size")) + TRc(st.A) - 1 + z3.Q(1, 2 ** 19),
                  using=st.wf_pos_in() + vc.facts + [st.A >= 1, L >= 8])
         vc.lemma("(A-1) * ratio <= 7 (carve-out, with the ulp slack of the ratio)", TRc(st.A - 1) * rr <= 7 * (1 + z3.Q(1, 2 ** 39)), using=cfgp)
+        vc.lemma("progress so far, in input frames, is below the span + one step",
+                 idx_h - IDX0 <= TRc(v("chunk_size")) + TRc(st.A) - 1 + z3.Q(1, 2 ** 19) + T0 + E_STEP,
+                 using=[z3.Or(cnt_h == 0, idx_h - T0 < TRc(END) + E_STEP), z3.Implies(cnt_h == 0, idx_h == IDX0), T0 > 0, st.A >= 1,
+                        v("chunk_size") >= 1, TRc(END) - IDX0 <= TRc(v("chunk_size")) + TRc(st.A) - 1 + z3.Q(1, 2 ** 19)])
+        vc.lemma("the same progress in output frames: (idx - idx0)*ratio <= chunk*ratio + (A-1)*ratio + 1 + 2^-10",
+                 (idx_h - IDX0) * rr <= TRc(v("chunk_size")) * rr + TRc(st.A - 1) * rr + 1 + z3.Q(1, 2 ** 10),
+                 using=[idx_h - IDX0 <= TRc(v("chunk_size")) + TRc(st.A) - 1 + z3.Q(1, 2 ** 19) + T0 + E_STEP, rr > 0, rr <= 128,
+                        T0 * rr <= 1 + z3.Q(1, 2 ** 50), T0 > 0])
         vc.lemma("ceil(t_ratio_end) <= ceil(1/ratio) as the wf bound counts it",
                  TRc(v("chunk_size") - (L + 1) - END) <= cpos(rr), using=vc.facts + [rr > 0])
     else:
@@ -795,6 +863,92 @@ def hints(vc, st, kind, T0, IDX0, idx_h, cnt_h, e0, D, fill_now, step=False):
                  using=bufw + st.wf_cfg())
         vc.lemma("advertised input need + 2L + 1 <= buffer length", v("needed_input_size") + 2 * L + 1 <= st.buflen,
                  using=wf_need(st, D) + wf_pos_out(st, D) + [L >= 8, L % 2 == 0, mr >= 1, q > 0, v("chunk_size") >= 1, st.lo > 0, rr > 0])
+
+
+def postblock_vcs(read, T):
+    """The post-loop block of process_into_buffer, for ANY call (ramps included, arbitrary final position): the current
+    ratio becomes the target and the bookkeeping of the next call is derived from the *new* state."""
+    kind = KINDS[T]
+    src = read(kind.file)
+    S = Structure(kind, src)
+    st = State(kind, src, ramp=True)
+    env = st.env
+    install_helpers(env, read, kind, src)
+    D = z3.Real("f32_slack")
+    v = st.v
+    fn = T + "::process_into_buffer"
+    vc = VC("%s.process.post_block(any call)" % T, fn)
+    vc.witness = st.witness() + [v("target_ratio") == 1]
+    vc.assume(st.wf_cfg() + st.wf_ratio())
+    idxf = z3.Real("idx_final")
+    vc.assume(idxf >= -(2 ** 17), idxf <= 2 ** 17, v("last_index") >= -(2 ** 17), v("last_index") <= 0)
+    if "current_buffer_fill" in st.fields:
+        vc.assume(v("current_buffer_fill") >= 0, v("current_buffer_fill") <= 2 ** 18)
+    env.vars["idx"] = Val(idxf, "f64")
+    env.vars["n"] = Val(z3.Int("n_final"), "usize")
+    if not kind.fixed_in:
+        vc.assume(wf_pos_out(st, D)[:2], v("needed_input_size") >= 0, v("needed_input_size") <= 2 ** 18)
+        # the setup assigns the fill before the loop
+        for s_ in S.setup:
+            if s_[0] == "expr" and rp.strip_paren(s_[1])[0] == "assign" and "current_buffer_fill" in rp.show(s_[1]):
+                env.exec_stmt(s_)
+    env.abs_slack = E_STEP
+    for s_ in S.post:
+        env.exec_stmt(s_)
+    vc.take_side(env)
+    nv = lambda n: env.vars["self." + n].t
+    vc.goal("C06 after ANY call (ramp or step) the current ratio equals the target: the next chunk runs at 1/new",
+            z3.And(nv("resample_ratio") == v("target_ratio"), nv("target_ratio") == v("target_ratio")))
+    if not kind.fixed_in:
+        X = need_bounds(st, nv("last_index"), nv("chunk_size"), nv("resample_ratio"), nv("target_ratio"), D)
+        nd = z3.ToReal(nv("needed_input_size"))
+        # only the relation between the new need and the NEW state matters here (no claim about its size)
+        Dloc = z3.Q(1, 2 ** 20) * (zabs(nv("last_index")) + z3.ToReal(nv("chunk_size")) / nv("resample_ratio") + z3.ToReal(st.L) + 16)
+        vc.goal("C06/C04 the next input need is computed from the NEW ratio and the NEW position: "
+                "ceil(last_index' + chunk/ratio' + L) within the f32 slack",
+                z3.Or(z3.And(nd >= X - Dloc, nd <= X + 1 + Dloc), z3.And(X < 0, nd == 0)))
+        vc.goal("C05 the carried position is relative to the input just consumed: last_index' == idx - needed (rounded)",
+                z3.And(nv("last_index") - (idxf - z3.ToReal(v("needed_input_size"))) <= z3.Q(1, 2 ** 30),
+                       nv("last_index") - (idxf - z3.ToReal(v("needed_input_size"))) >= -z3.Q(1, 2 ** 30)))
+    else:
+        vc.goal("C05 the carried position is relative to the chunk just consumed: last_index' == idx - chunk_size (rounded)",
+                z3.And(nv("last_index") - (idxf - z3.ToReal(v("chunk_size"))) <= z3.Q(1, 2 ** 30),
+                       nv("last_index") - (idxf - z3.ToReal(v("chunk_size"))) >= -z3.Q(1, 2 ** 30)))
+    return vc.discharge(env)
+
+
+def estimate_vcs(read, T):
+    """C04 (fixed-input types): the advertised output estimate and the ramp's frame estimate are built from the MEAN of the
+    current and the target ratio (expression identity with the documented estimate chunk*(r+t)/2 + 10); the bound
+    `frames produced <= estimate` itself is proved for calls that are not ramps (process VCs) and rests, for ramps, on the
+    AM-HM argument of DESIGN.md 4 C04 (not machine-checked)."""
+    kind = KINDS[T]
+    if not kind.fixed_in:
+        return []
+    src = read(kind.file)
+    impl = ["Resampler", "for " + kind.T + "<"]
+    inherent = ["impl<T> " + kind.T + "<"]
+    obs = []
+    fn = T + "::output_frames_next"
+    want = "(((self.chunk_size as f64) * ((0.5 * self.resample_ratio) + (0.5 * self.target_ratio))) + 10.0) as usize"
+    wantn = syn.norm_text(rp.parse_expr(want))
+    sig, body, l0, _ = rp.find_fn(src, "output_frames_next", impl)
+    got = syn.inline_self_getters(syn.subst(body[2], syn.let_env(body[1], syn.subst)), src, [impl, inherent])
+    ok = syn.norm_text(got) == wantn
+    obs.append(Obligation("%s.output_frames_next :: C04 the advertised estimate is floor(chunk * mean(current, target ratio) + 10)" % T,
+                          "expression-identity", DISCHARGED if ok else FAILED, 0.0, "complete", [fn], checks=1,
+                          detail="" if ok else "output_frames_next() computes `%s`, the documented estimate is `%s`: while a ramp is pending the "
+                                               "number of frames written can exceed what is advertised" % (syn.norm_text(got), wantn)))
+    S = Structure(kind, src)
+    env = syn.let_env(S.setup, syn.subst)
+    if "approximate_nbr_frames" in env:
+        want2 = syn.norm_text(rp.parse_expr("(self.chunk_size as f64) * ((0.5 * self.resample_ratio) + (0.5 * self.target_ratio))"))
+        got2 = syn.norm_text(syn.inline_self_getters(env["approximate_nbr_frames"], src, [impl, inherent]))
+        ok2 = got2 == want2
+        obs.append(Obligation("%s.process :: C06 the ramp is spread over chunk * mean(current, target ratio) frames" % T, "expression-identity",
+                              DISCHARGED if ok2 else FAILED, 0.0, "complete", [T + "::process_into_buffer"], checks=1,
+                              detail="" if ok2 else "approximate_nbr_frames is `%s`, expected `%s`" % (got2, want2)))
+    return obs
 
 
 def wf_pos_out(st, D):
@@ -926,7 +1080,7 @@ def wf_post(st, env, D, tp_new=None):
     goals.append(("wf' chunk size within 1..=max", z3.And(v("chunk_size") >= 1, v("chunk_size") <= maxchunk, maxchunk == st.maxchunk)))
     goals.append(("frame: configuration constants untouched", z3.And(v("resample_ratio_original") == st.v("resample_ratio_original"),
                                                                       v("max_relative_ratio") == st.v("max_relative_ratio"), v("nbr_channels") == st.v("nbr_channels"))))
-    fill = v("current_buffer_fill") if "current_buffer_fill" in st.fields else v("chunk_size")
+    fill = v("current_buffer_fill") if "current_buffer_fill" in st.fields else st.fill
     goals.append(("wf' recorded fill still fits the buffer", z3.And(fill >= 0, fill + 2 * L <= st.buflen)))
     if k.fixed_in:
         tp = tp_new if tp_new is not None else st.tp
@@ -986,7 +1140,7 @@ def setter_vcs(read, T):
         vc.goal("C12 accepted size becomes the chunk size", nv("chunk_size") == n)
         vc.goal("C05 frame: position, ratios and the recorded fill untouched (the history keeps its place)",
                 z3.And(nv("last_index") == st.v("last_index"), nv("resample_ratio") == st.v("resample_ratio"), nv("target_ratio") == st.v("target_ratio"),
-                       nv("current_buffer_fill") == st.v("current_buffer_fill")))
+                       *([nv("current_buffer_fill") == st.v("current_buffer_fill")] if "current_buffer_fill" in st.fields else [])))
         for (lbl, g) in wf_post(st, env, D):
             vc.goal(lbl, g)
         obs += vc.discharge(env)
@@ -1059,6 +1213,9 @@ def reset_vcs(read, T):
             vcn.goal("constructor sizes the buffer as max chunk + 2*L", bl.t == st.maxchunk + 2 * st.L)
     if not kind.fixed_in:
         vcn.assume(D == z3.Q(1, 2 ** 20) * (z3.ToReal(st.maxchunk) / (st.lo * (R(1) - z3.Q(1, 2 ** 30))) + z3.ToReal(st.L) + 16), D <= z3.Q(1, 4))
+    if st.fill_is_ghost:
+        # the all-zero initial buffer is a valid history for any recorded fill: the ghost starts as the chunk size
+        vcn.assume(st.fill == st.maxchunk)
     tp0 = st.v("resample_ratio_original")
     for (lbl, g) in wf_post(st, e2, D, tp_new=tp0):
         vcn.goal("constructor: " + lbl, g)
@@ -1097,13 +1254,17 @@ def _run_type(args):
     import os
     read = lambda f: open(os.path.join(root, "src", f)).read()
     out = []
-    for part, fn in (("process", process_vcs), ("setters", setter_vcs), ("reset", reset_vcs)):
+    for part, fn in (("process", process_vcs), ("process", postblock_vcs), ("process", estimate_vcs), ("setters", setter_vcs), ("reset", reset_vcs)):
         if part not in what:
             continue
         try:
             out += fn(read, T)
         except (Undecided, rp.ParseError) as e:
             out.append(Obligation("%s.%s :: extraction" % (T, part), "extraction", UNDECIDED, 0.0, "complete-real", [T], detail=str(e)))
+        except Exception as e:      # a defect of the machinery is never an alarm
+            import traceback
+            out.append(Obligation("%s.%s :: extraction" % (T, part), "extraction", UNDECIDED, 0.0, "complete-real", [T],
+                                  detail="internal error in the VC generator: %r\n%s" % (e, traceback.format_exc()[-1500:])))
     return out
 
 
